@@ -1,31 +1,41 @@
 """C13 — dataflow solvers reach the least fixpoint; lattices obey their laws.
 
-Lean: Verif/C13/{Model,LatLemmas,DenseLemmas,SparseLemmas,MapLemmas,Repr,ReprInst,Theorems}.lean.
+Lean: Verif/C13/{Model,LatLemmas,DenseLemmas,SparseLemmas,SparseMLemmas,SparseMRepr,MapLemmas,Repr,ReprInst,Heap,
+      Theorems,TheoremsSparseM,TheoremsSparseMUpto,TheoremsExtra,TheoremsQueue}.lean.
   dense  : dense.Forward/propagate as a transition system (state = in/out/dirty/queue; queue = set,
-           ANY schedule, the nodeHeap order being one): dense_fixpoint, dense_least,
-           dense_schedule_independent, dense_terminates, dense_run_length, dense_run_terminal,
-           dense_forward_least_fixpoint (all of Forward in one statement), dense_edge_api;
-           for lattices whose Equals is coarser than equality (DenseMapLattice, MapLattice) the same
-           up to Equals by a step-by-step simulation (Repr): dense_fixpoint_upto, dense_least_upto,
-           dense_terminates_upto, dense_run_terminal_upto, dense_forward_upto, dm_repr, map_repr,
-           dense_forward_densemap, dense_forward_map, dense_forward_nilness (nilness.go's instance)
-  sparse : sparse.Instance.Forward likewise: sparse_fixpoint, sparse_least,
-           sparse_schedule_independent, sparse_terminates, sparse_run_terminal,
-           sparse_forward_least_fixpoint
+           ANY schedule): dense_fixpoint, dense_least, dense_schedule_independent, dense_terminates,
+           dense_run_length, dense_run_terminal, dense_forward_least_fixpoint, dense_edge_api; up to a
+           coarse Equals (DenseMapLattice, MapLattice) by the Repr simulation: dense_*_upto, dm_repr,
+           map_repr, dense_forward_densemap, dense_forward_map, dense_forward_nilness;
+           the Ident-for-an-unvisited-predecessor rule is what leastness depends on:
+           dense_placeholder_ident, dense_placeholder_must_be_ident (negative);
+           the real queue (container/heap + inQueue bitmap words) implements the set-queue for every
+           priority table: heap_queue_implements_set, dense_heap_step_refines,
+           dense_forward_heap_least_fixpoint
+  sparse : sparse.Instance.Forward, transfers mapping the instruction's own value: sparse_fixpoint,
+           sparse_least, sparse_schedule_independent, sparse_terminates, sparse_run_terminal,
+           sparse_forward_least_fixpoint; transfers returning ANY list of mappings (sparse.Ms) under the
+           client contract SparseM.Spec: sparsem_fixpoint, sparsem_least, sparsem_schedule_independent,
+           sparsem_terminates, sparsem_run_terminal, sparsem_forward_least_fixpoint,
+           sparsem_generalises_sparse, sparsem_flag_must_accumulate (negative); up to a coarse Equals:
+           sparsem_fixpoint_upto, sparsem_least_upto, sparsem_forward_upto
   lattices: map_lattice_laws, map_merge_no_panic, dense_map_lattice_laws, nilness_laws
-           (kernel `decide` over the table REGENERATED from the current tree),
-           nilness_lattice_lawful
+           (kernel `decide` over the table REGENERATED from the current tree), nilness_lattice_lawful
 Tie G: harness `c13run table` reads the real nilness.latticeMerge (go:linkname, no hook) and
   this file rewrites lean/Verif/C13/Generated.lean when it differs.
-Tie X: generated graphs x transfer families through the real dense.Forward (three graph
-  adapters = the three paths of graph.Compact; facts in uint64 / DenseMapLattice / MapLattice
-  / the real nilness lattice) and generated Go functions through the real IR builder and the
-  real sparse.Instance.Forward with table-driven monotone transfers; each result is compared
-  with the Lean model (run under a different schedule) and with the oracle.
-Oracle: the property itself on the real output — every equation of the fixpoint holds and the
-  result equals the least fixpoint computed here by naive Kleene iteration; the lattice laws
-  are evaluated with the real Merge/Equals on all triples of generated elements (all 25
-  nilness values exhaustively).
+Tie X: generated graphs (incl. 65-200 nodes, long back edges, reversed numbering, multi-entry cycles,
+  loop nests) x transfer families through the real dense.Forward (three graph adapters = the three
+  paths of graph.Compact; 14 fact types, four of them with Ident() != the Go zero value) and generated
+  Go functions through the real IR builder and the real sparse.Instance.Forward (three runs each, single-
+  and multi-mapping table-driven monotone transfers, union / intersection / flat / nilness lattices);
+  each result is compared with the Lean model (run under a different schedule; dense: over k-vectors
+  or over the dmLat/mapLat representations) and with the oracle; the hypotheses of the sparse theorems
+  are probed on every dumped program.
+Oracle: the property itself on the real output — every equation (sparse: every mapping of every
+  instruction) holds, the result equals the least fixpoint computed here by naive Kleene / round-robin
+  iteration and does not depend on the worklist order; the lattice laws are evaluated with the real
+  Merge/Equals on all triples of generated elements (all 25 nilness values exhaustively).
+Known finding: key=sparse-nonvalue-mapping-nil-deref (findings.d/C13.txt).
 """
 import json
 import os
@@ -33,7 +43,8 @@ from concurrent.futures import ProcessPoolExecutor, ThreadPoolExecutor
 
 import vlib
 
-MODULES = ["Verif.C13.Theorems"]
+MODULES = ["Verif.C13.Theorems", "Verif.C13.TheoremsSparseM", "Verif.C13.TheoremsSparseMUpto", "Verif.C13.TheoremsExtra",
+           "Verif.C13.TheoremsQueue"]
 THEOREMS = [
     "Verif.C13.dense_fixpoint",
     "Verif.C13.dense_least",
@@ -64,8 +75,29 @@ THEOREMS = [
     "Verif.C13.nilness_laws",
     "Verif.C13.nilness_lattice_lawful",
     "Verif.C13.dense_forward_nilness",
+    # sparse solver with multi-mapping transfers (TheoremsSparseM.lean)
+    "Verif.C13.sparsem_fixpoint",
+    "Verif.C13.sparsem_least",
+    "Verif.C13.sparsem_schedule_independent",
+    "Verif.C13.sparsem_terminates",
+    "Verif.C13.sparsem_run_terminal",
+    "Verif.C13.sparsem_forward_least_fixpoint",
+    "Verif.C13.sparsem_generalises_sparse",
+    "Verif.C13.sparsem_flag_must_accumulate",
+    # ... over lattices whose Equals is coarser than equality (SparseMRepr.lean, TheoremsSparseMUpto.lean)
+    "Verif.C13.sparsem_fixpoint_upto",
+    "Verif.C13.sparsem_least_upto",
+    "Verif.C13.sparsem_forward_upto",
+    # the Ident-for-an-unvisited-predecessor rule is what leastness depends on (TheoremsExtra.lean)
+    "Verif.C13.dense_placeholder_ident",
+    "Verif.C13.dense_placeholder_must_be_ident",
+    # the real work queue (container/heap + bitmap words) implements the set-queue (Heap.lean, TheoremsQueue.lean)
+    "Verif.C13.heap_queue_implements_set",
+    "Verif.C13.dense_heap_step_refines",
+    "Verif.C13.dense_forward_heap_least_fixpoint",
 ]
 
+KEY_NONVALUE = "sparse-nonvalue-mapping-nil-deref"
 GENERATED = os.path.join(vlib.LEAN_DIR, "Verif", "C13", "Generated.lean")
 CORPUS = os.path.join(vlib.VERIF, "corpus", "C13")
 
@@ -112,6 +144,10 @@ def sparse_fam(name, table):
         return Fam("cp", 10, 0, flat_merge)
     if name == "n5":
         return Fam("n5", 5, 0, lambda a, b: table[a][b])
+    if name.startswith("and"):
+        # intersection of bitsets: Ident is the full set, NOT the Go zero value
+        w = int(name[3:])
+        return Fam(name, 1 << w, (1 << w) - 1, lambda a, b: a & b)
     w = int(name[4:])
     return Fam(name, 1 << w, 0, lambda a, b: a | b)
 
@@ -630,7 +666,7 @@ def gen_source(rng):
 
 
 def gen_sparse(rng, table):
-    lat = rng.choice(["bits2", "bits3", "cp", "n5", "n5"])
+    lat = rng.choice(["bits2", "bits3", "and2", "and3", "cp", "n5", "n5"])
     fam = sparse_fam(lat, table)
     tabs = []
     for _ in range(2):
@@ -674,10 +710,17 @@ def parse_sparse_dump(dump):
     return lat, n, nvals, ins, val0, tb
 
 
+def own_target(ins, i):
+    """the value instruction i's computed mapping is for: itself, or v for kind s<v> (an instruction
+    without a value, e.g. Return, mapping a summary for another value)."""
+    k = ins[i][0]
+    return int(k[1:]) if k[0] == "s" and k != "s" else i
+
+
 def sparse_eval(fam, ins, tb, val, i):
     """the state of instruction i's own mapping (None: no own mapping)."""
     k, ops = ins[i][0], ins[i][1]
-    if k == "phi":
+    if k == "phi" or k[0] == "s":
         d = fam.bot
         for o in ops:
             d = fam.merge(d, val[o])
@@ -695,7 +738,7 @@ def sparse_eval(fam, ins, tb, val, i):
 def sparse_maps(fam, ins, tb, val, i):
     """all mappings (value, state) instruction i's transfer returns on `val`, in order."""
     own = sparse_eval(fam, ins, tb, val, i)
-    return list(ins[i][3]) + ([] if own is None else [(i, own)]) + list(ins[i][4])
+    return list(ins[i][3]) + ([] if own is None else [(own_target(ins, i), own)]) + list(ins[i][4])
 
 
 def kleene_sparse(fam, n, nvals, ins, val0, tb):
@@ -731,7 +774,7 @@ def sparse_hypotheses(fam, n, nvals, ins, val0, tb):
         for (w, x) in ins[i][3] + ins[i][4]:
             writers.setdefault(w, []).append((i, x))
         if ins[i][0] != "none":
-            writers.setdefault(i, []).append((i, None))
+            writers.setdefault(own_target(ins, i), []).append((i, None))
     readers = {}
     for j in range(n):
         if ins[j][0] != "none":
@@ -767,11 +810,20 @@ def sparse_oracle_worker(args):
         dump, r = out.split(" => ")
         lat, n, nvals, ins, val0, tb = parse_sparse_dump(dump)
         fam = sparse_fam(lat, table)
-        reals = [[int(x) for x in rr[len("val="):].split(",")] for rr in r.split(" ~ ")]
+        raw_results = r.split(" ~ ")
         lfp = kleene_sparse(fam, n, nvals, ins, val0, tb)
         if lfp is None:
             res.append(("noconv", dump))
             continue
+        panics = [rr for rr in raw_results if not rr.startswith("val=")]
+        if panics:
+            # the real solver panicked. Does an instruction that is not an ir.Value (kind s: Referrers()
+            # is nil) have a mapping whose state changes? (the class of the recorded finding)
+            nonvalue_changing = any(ins[i][0][0] == "s" and ins[i][0] != "s" and
+                                    lfp[own_target(ins, i)] != val0.get(own_target(ins, i), fam.bot) for i in range(n))
+            res.append(("panic", dump, panics, lfp, sparse_hypotheses(fam, n, nvals, ins, val0, tb), nonvalue_changing))
+            continue
+        reals = [[int(x) for x in rr[len("val="):].split(",")] for rr in raw_results]
         bad = []
         targets = set()
         for i in range(n):
@@ -782,7 +834,7 @@ def sparse_oracle_worker(args):
             for i in range(n):
                 for (w, x) in sparse_maps(fam, ins, tb, real, i):
                     if real[w] != x:
-                        if w == i:
+                        if w == i and own_target(ins, i) == i:
                             bad.append("%svalue of instruction %d (%s) is %d, its equation gives %d" % (tag, i, ins[i][0], real[w], x))
                         else:
                             bad.append("%sinstruction %d maps value %d to %d, but its final state is %d" % (tag, i, w, x, real[w]))
@@ -910,6 +962,7 @@ def run(ctx):
         safe[a][safe[b][c]] == safe[safe[a][b]][c] and safe[a][b] == safe[b][a] and safe[a][a] == a and safe[a][0] == a
         for a in R5 for b in R5 for c in R5)
 
+    known = vlib.load_known_findings("C13")
     violations = []      # (name, obj, text)
     corr = []            # model != implementation, oracle fine
     hist = {}
@@ -925,7 +978,7 @@ def run(ctx):
     root = vlib.SplitMix(ctx.seed)
     law_lines = ["laws nil nil " + " ".join(str(i) for i in range(25))]
     nsets = 6 if ctx.quick else 60
-    for impl, els in (("map", ["cp", "n5", "or"]), ("dm", ["cp", "n5", "or", "and", "nil"])):
+    for impl, els in (("map", ["cp", "n5", "or", "ao"]), ("dm", ["cp", "n5", "or", "and", "ao", "nil"])):
         for el in els:
             fam = fams[el]
             for si in range(nsets):
@@ -940,12 +993,12 @@ def run(ctx):
     for i in range(nmerge):
         rng = root.fork("merge/%d" % i)
         if rng.chance(1, 2):
-            el = rng.choice(["cp", "n5", "or"])
+            el = rng.choice(["cp", "n5", "or", "ao"])
             a, b = gen_map_elem(rng, fams[el], False), gen_map_elem(rng, fams[el], False)
             merge_go.append("merge map %s %s %s" % (el, a, b))
             merge_lean.append("mapmerge %s %s %s" % (el, a, b))
         else:
-            el = rng.choice(["cp", "n5", "or", "and", "nil"])
+            el = rng.choice(["cp", "n5", "or", "and", "ao", "nil"])
             a, b = gen_dm_elem(rng, fams[el]), gen_dm_elem(rng, fams[el])
             merge_go.append("merge dm %s %s %s" % (el, a, b))
             merge_lean.append("dmmerge %s %s %s" % (el, a, b))
@@ -1131,6 +1184,23 @@ def run(ctx):
                 raise vlib.HarnessError("kleene_sparse does not converge: " + r[1])
             bump("sparse:skipped-unlawful-table")
             continue
+        if r[0] == "panic":
+            _, dump, panics, lfp, hyp, nonvalue_changing = r
+            if hyp:
+                wf_broken += 1
+                continue
+            if (KEY_NONVALUE in known and nonvalue_changing and
+                    all("nil pointer dereference" in m for m in panics)):
+                bump("sparse:known-finding-nonvalue-mapping")
+                ctx.known_finding("key=%s sparse.Instance.Forward panics (nil pointer dereference at *instr.Referrers()) when the "
+                                  "transfer function of an instruction that is not an ir.Value (here *ir.Return mapping a summary "
+                                  "state for the function value) returns a mapping whose state changes" % KEY_NONVALUE)
+                continue
+            replay_obj["dump"] = dump
+            replay_obj["what"] = "the real sparse.Instance.Forward did not return a result: " + panics[0]
+            replay_obj["least_fixpoint_by_kleene_iteration"] = lfp
+            violations.append(("sparse_noresult.json", replay_obj, "C13 sparse: %s\n%s" % (panics[0], src)))
+            continue
         _, dump, real, lfp, bad, hyp, n, nphi, nmulti = r
         bump("sparse:lat=" + dump.split()[1])
         bump("sparse:instrs=%s" % ("<20" if n < 20 else "20-49" if n < 50 else "50+"))
@@ -1159,7 +1229,7 @@ def run(ctx):
         mv = m.split(";")[0]
         if mv != "val=" + ",".join(str(x) for x in real):
             corr.append({"stream": "sparse", "go_line": line, "impl": real, "model": m})
-        if nphi > 0 and any(x != 0 for x in real[:n]):
+        if nphi > 0 and any(x != sparse_fam(dump.split()[1], safe).bot for x in real[:n]):
             sparse_nontrivial.add(line)
             if nmulti > 0:
                 sparse_multi_nontrivial += 1
@@ -1171,7 +1241,8 @@ def run(ctx):
         "evaluations": len(recs) + len(sp_lines) + triples + len(merge_go),
         "distinct_nontrivial": len(dense_nontrivial) + len(sparse_nontrivial),
         "rule": "dense: distinct (lattice, graph, entry, transfers) cases with at least one edge whose Kleene iteration needs "
-                "more than 2 rounds; sparse: distinct programs with at least one phi and a non-Ident instruction value",
+                "more than 2 rounds; sparse: distinct programs with at least one phi and a non-Ident instruction value whose "
+                "real result was compared (known-finding programs excluded)",
         "dense_cases": len(recs), "dense_nontrivial": len(dense_nontrivial),
         "sparse_programs": len(sp_lines), "sparse_nontrivial": len(sparse_nontrivial),
         "sparse_nontrivial_with_multi_mapping_transfers": sparse_multi_nontrivial,
@@ -1185,20 +1256,24 @@ def run(ctx):
         "phase_seconds": phases,
     })
     ctx.assumptions += [
-        "the executable model runs on canonical k-vectors (Equals = equality); that the real DenseMapLattice / MapLattice "
-        "representations (Equals coarser than equality) behave the same step by step is proved (Repr simulation: "
-        "dense_forward_densemap / dense_forward_map / dense_forward_nilness), their Merge/Equals models are tied by the "
-        "lattice-merge correspondence stream",
-        "graph.Compact / graph.Index / ReversePostorder / container/heap are not modelled: every theorem holds for any schedule "
-        "(the heap order is one; dense_schedule_independent); the three Compact paths and graphs beyond 64 nodes (second word "
-        "of the queue bitmap) are exercised by the X runs only",
-        "transfer functions are monotone (hypothesis Mono / MonoE) and, for coarse Equals, keep facts well-formed and respect "
-        "Equals; generated transfers are monotone by construction",
+        "the executable dense model runs on canonical k-vectors and, for every second dm/map case, over the dmLat / mapLat "
+        "representations themselves (Equals coarser than equality); that both agree step by step is proved (Repr simulation: "
+        "dense_forward_densemap / dense_forward_map / dense_forward_nilness)",
+        "graph.Compact / graph.Index / ReversePostorder are not modelled: every theorem holds for any schedule and the real queue "
+        "(container/heap + bitmap words, Heap.lean) is proved to implement the set-queue for every priority table; the queue model "
+        "is a transliteration of forward.go and container/heap (not tied by execution); the three Compact paths and graphs of "
+        "65-200 nodes (2-4 bitmap words) are exercised by the X runs",
+        "transfer functions are monotone (hypothesis Mono / MonoE / SpecMono) and, for coarse Equals, keep facts well-formed and "
+        "respect Equals; generated transfers are monotone by construction",
         "finite height is a hypothesis (Ranked); proved for the nilness lattice (height 3 per component) and for k-vectors",
-        "sparse: Equals = equality (all element types used are comparable), the transfer reads only operand states and maps "
-        "only the instruction's own value (Dep), use-def chains of the IR are consistent (Prog.WF, checked on every dump), "
-        "no Set on instruction values (InitBot)",
-        "Python Kleene iteration and the op/table interpreters in checks/c13.py are the oracle and are trusted",
+        "sparse: the executed lattices have Equals = equality (all element types used are comparable; the carry-over to a coarse "
+        "Equals is proved: sparsem_forward_upto); the client contract SparseM.Spec (all writers of a "
+        "value agree, mappings read only their read sets, each mapping is stable or every reader of the mapped value is a "
+        "referrer of the mapping instruction, initial states below the mapped ones) is probed on every dump by "
+        "sparse_hypotheses(); programs violating it would be counted, not judged (none so far)",
+        "known finding sparse-nonvalue-mapping-nil-deref: programs in which a non-value instruction (Referrers() == nil) has a "
+        "mapping whose state changes make the real solver panic; they are reported as KNOWN-FINDING and carry no other information",
+        "Python Kleene / round-robin iteration and the op/table interpreters in checks/c13.py are the oracle and are trusted",
     ]
 
     # ---------------------------------------------------------------- classify
@@ -1286,6 +1361,11 @@ def replay(ctx, binp, fams, table):
         for gl, r in zip(lines, sparse_oracle_worker((outs, table))):
             if r[0] == "raw":
                 failed.append((gl, r[1]))
+            elif r[0] == "panic":
+                if KEY_NONVALUE in vlib.load_known_findings("C13") and r[5] and all("nil pointer dereference" in m for m in r[2]):
+                    ctx.known_finding("key=%s (replayed case)" % KEY_NONVALUE)
+                else:
+                    failed.append((gl, r[2][0]))
             elif r[0] == "noconv":
                 failed.append((gl, "Kleene iteration does not converge over the current nilness table"))
             elif r[5]:
@@ -1312,25 +1392,35 @@ def replay(ctx, binp, fams, table):
 
 META = {
     "level": "proof",
-    "technique": "Lean 4 theorems over transition-system models of dense.Forward/propagate and sparse.Instance.Forward (worklist "
-                 "algorithms with dirty flags / referrer re-enqueueing, any schedule) and of MapLattice/DenseMapLattice, plus a "
-                 "simulation theorem carrying the solver results to lattices whose Equals is coarser than equality; nilness "
-                 "table regenerated from the tree and re-proved by kernel decide; executable correspondence + Kleene-iteration "
-                 "oracle on the real solvers",
+    "technique": "Lean 4 theorems over transition-system models of dense.Forward/propagate (dirty flags, any schedule), of its "
+                 "real work queue (container/heap up/down/Push/Pop + inQueue bitmap words, proved to implement the set-queue for "
+                 "every priority table), of sparse.Instance.Forward for single- and multi-mapping transfers (sparse.Ms), and of "
+                 "MapLattice/DenseMapLattice, plus a simulation theorem carrying the dense results to lattices whose Equals is "
+                 "coarser than equality; nilness table regenerated from the tree and re-proved by kernel decide; executable "
+                 "correspondence + Kleene / round-robin least-fixpoint oracle on the real solvers, with fact types whose Ident() is "
+                 "not the Go zero value, multi-mapping transfer functions, 65-200 node graphs, three sparse runs per program",
     "text": "Proved for every finite graph / program, every lawful semilattice of finite height, every monotone transfer, every "
-            "entry map and every schedule: the worklist loop of dense.Forward and of sparse.Forward terminates (explicit bound), "
-            "its result satisfies in(n) = merge of incoming edge facts (entry fact for nodes without predecessors), "
-            "edge = transfer(in(src)), and lies below every other solution (dense_forward_least_fixpoint, "
-            "sparse_forward_least_fixpoint); the same up to Equals for DenseMapLattice and MapLattice facts "
-            "(dense_forward_densemap, dense_forward_map) and for the exact instance nilness.go uses (dense_forward_nilness). "
-            "map_lattice_laws, dense_map_lattice_laws, nilness_laws (over the table regenerated from nilness.go at every check) give "
-            "associativity, commutativity, idempotence, identity and that Equals is a congruence. Explored, not proved: that the Go "
-            "code is the model (tie X: real dense.Forward over three graph adapters and four fact representations, real "
-            "sparse.Forward on IR built from generated sources, real Merge/Equals; compared with the model and with the least "
-            "fixpoint by Kleene iteration); graph.Compact, ReversePostorder and the heap are covered by schedule independence only.",
+            "entry map and every schedule: the worklist loop of dense.Forward (also when driven by its real heap + bitmap queue "
+            "with any priority table: dense_forward_heap_least_fixpoint) and of sparse.Forward (transfers returning one mapping: "
+            "sparse_forward_least_fixpoint; any list of mappings under the explicit client contract SparseM.Spec - agreeing "
+            "writers, read sets, each mapping stable or every reader of the mapped value a referrer of the mapping instruction: "
+            "sparsem_forward_least_fixpoint; up to a coarse Equals: sparsem_forward_upto) terminates within an explicit bound, its result satisfies in(n) = merge of incoming "
+            "edge facts (entry fact for nodes without predecessors), edge = transfer(in(src)) resp. every mapping of every "
+            "instruction, and lies below every other solution; the same up to Equals for DenseMapLattice and MapLattice facts "
+            "and for the instance nilness.go uses. Negative theorems: a non-Ident placeholder for an unvisited predecessor's out "
+            "facts (dense_placeholder_must_be_ident) and a re-enqueue flag assigned per mapping (sparsem_flag_must_accumulate) "
+            "break leastness / the fixpoint on instances satisfying all hypotheses. map_lattice_laws, dense_map_lattice_laws, "
+            "nilness_laws (over the table regenerated from nilness.go at every check) give associativity, commutativity, "
+            "idempotence, identity and that Equals is a congruence. Explored, not proved: that the Go code is the model (tie X: "
+            "real dense.Forward over three graph adapters and 14 fact types, four with a non-zero Ident; real sparse.Forward on IR "
+            "built from generated sources with multi-mapping transfers and intersection lattices; real Merge/Equals; compared "
+            "with the model - run over k-vectors and over the dmLat/mapLat representations - and with the least fixpoint by "
+            "Kleene iteration); the queue model is a transliteration of forward.go and container/heap; graph.Compact and "
+            "ReversePostorder are not modelled (irrelevant for the result by the queue theorems). Known finding: "
+            "sparse.Instance.Forward dereferences a nil Referrers() when a non-value instruction's mapping changes.",
     "note": "Trusted: Lean kernel (axioms propext/Classical.choice/Quot.sound), compiled c13driver, harness/cmd/c13run (go:linkname "
-            "access to the unexported nilness lattice, no hook), the Kleene oracle in checks/c13.py. Hypotheses of the theorems "
-            "(monotone transfers, finite height, well-formed facts, sparse transfers map their own instruction's value) are "
-            "explicit and each has a non-vacuity example.",
+            "access to the unexported nilness lattice, no hook), the oracles and hypothesis probes in checks/c13.py. Hypotheses of "
+            "the theorems (monotone transfers, finite height, well-formed facts, the sparse client contract) are explicit, each "
+            "has a non-vacuity example, and the sparse contract is probed on every generated program.",
     "design_ref": "DESIGN.md section 5, C13; Appendix B (C13 dense)",
 }
